@@ -45,6 +45,8 @@ pub struct Run {
     findings: Vec<Finding>,
     known_seen: Mutex<BTreeMap<String, KnownSeen>>,
     violations: Mutex<Vec<PathBuf>>,
+    /// normalised failure message -> (count, first case) for unclassified violations
+    categories: Mutex<BTreeMap<String, (u64, String)>>,
     violation_count: AtomicU64,
     /// prefix of replay file names (children of a check use their own, e.g. "seq-")
     pub replay_prefix: String,
@@ -115,6 +117,7 @@ impl Run {
             findings,
             known_seen: Mutex::new(BTreeMap::new()),
             violations: Mutex::new(Vec::new()),
+            categories: Mutex::new(BTreeMap::new()),
             violation_count: AtomicU64::new(0),
             replay_prefix: String::new(),
             replay_extra: Mutex::new(Map::new()),
@@ -236,6 +239,27 @@ impl Run {
                     }
                     return;
                 }
+            }
+        }
+        {
+            let mut key = String::new();
+            let mut prev = false;
+            for c in observed.chars().take(160) {
+                if c.is_ascii_digit() {
+                    if !prev {
+                        key.push('#');
+                    }
+                    prev = true;
+                } else {
+                    key.push(c);
+                    prev = false;
+                }
+            }
+            let mut cats = self.categories.lock().unwrap();
+            let e = cats.entry(key).or_insert((0, String::new()));
+            e.0 += 1;
+            if e.1.is_empty() {
+                e.1 = truncate(&case.to_string(), 400);
             }
         }
         let n = self.violation_count.fetch_add(1, Ordering::SeqCst);
@@ -395,6 +419,15 @@ impl Run {
             coverage.insert(k.clone(), v.clone());
         }
         let violations = self.violation_count.load(Ordering::Relaxed);
+        {
+            let cats = self.categories.lock().unwrap();
+            if !cats.is_empty() {
+                let mut v: Vec<Value> = cats.iter().map(|(k, (n, c))| json!({"message": k, "count": n, "first_case": c})).collect();
+                v.sort_by_key(|x| std::cmp::Reverse(x["count"].as_u64().unwrap_or(0)));
+                v.truncate(60);
+                coverage.insert("violation_categories".into(), Value::Array(v));
+            }
+        }
         let ev = json!({
             "property_id": self.id,
             "tier": if self.thorough {"thorough"} else {"quick"},
